@@ -236,17 +236,6 @@ def check_direction_data(acc, loc):
                              f"{direction} marker {text!r} ({kind}) as in the locale's other {direction} templates")
 
 
-def kf_negative_duration(dur, r, d, is_now, absolute):
-    """C18-negative-duration: format_diff() handed a plain Duration whose components are negative tests them with
-    '> 0', finds no unit and falls through to the 'few seconds' / second branch."""
-    comps = (dur.years, dur.months, dur.weeks, dur.remaining_days, dur.hours, dur.minutes, dur.remaining_seconds)
-    if not any(c < 0 for c in comps) or any(c > 0 for c in comps):
-        return False
-    few = few_seconds(d, is_now, True, absolute)
-    sec = {phrase(d, "second", c, is_now, True, absolute) for c in (1, abs(dur.remaining_seconds) or 1, dur.remaining_seconds)}
-    return r == few or r in sec
-
-
 def check_negative_duration(acc, pendulum, loc, kw):
     d = data(loc)
     dur = pendulum.Duration(**kw)
@@ -261,8 +250,7 @@ def check_negative_duration(acc, pendulum, loc, kw):
                 continue
             ok = acceptable(d, comps, is_now, bool(dur.invert), absolute)
             if ok and r not in ok:
-                kf = "C18-negative-duration" if kf_negative_duration(dur, r, d, is_now, absolute) else None
-                acc.mismatch("format_diff", f"{loc}/negative-duration/phrase", case, r, sorted(ok), kf=kf)
+                acc.mismatch("format_diff", f"{loc}/negative-duration/phrase", case, r, sorted(ok))
 
 
 def check_date_time(acc, pendulum, loc):
@@ -357,6 +345,20 @@ def check_pair(acc, pendulum, loc, ia, ib, use_global):
             ok = acceptable(d, comps, False, future, absolute)
             if ok and r not in ok:
                 acc.mismatch("diff_for_humans", f"{loc}/naive-pair/phrase", case, r, sorted(ok))
+    # format_diff() handed the Interval of the pair in each of its spellings (helper / class / diff / operator; absolute or
+    # signed): the interval's start is the instance, its end the reference
+    for sp, mk in (("interval(a,b,absolute=True)", lambda: pendulum.interval(a, b, absolute=True)), ("interval(a,b,True)", lambda: pendulum.interval(a, b, True)),
+                   ("Interval(a,b,absolute=True)", lambda: pendulum.Interval(a, b, absolute=True)), ("interval(a,b)", lambda: pendulum.interval(a, b)),
+                   ("a.diff(b)", lambda: a.diff(b)), ("a.diff(b,False)", lambda: a.diff(b, False)), ("b-a", lambda: b - a)):
+        for is_now, absolute in ((False, False), (True, False), (False, True)):
+            case = {"kind": "pair", "loc": loc, "ia": ia, "ib": ib, "abs": absolute, "global": use_global, "spelling": sp, "now": is_now}
+            r = basic(acc, "format_diff", f"{loc}/interval-spelling", case, lambda: pendulum.format_diff(mk(), is_now, absolute, loc))
+            if r is None:
+                continue
+            # (b - a is Interval(a, b): a is its start)
+            ok = acceptable(d, comps, is_now, future, absolute)
+            if ok and r not in ok:
+                acc.mismatch("format_diff", f"{loc}/interval-spelling/phrase", case, r, sorted(ok))
     # Interval.in_words() of the same pair (components from the independent decomposition, sign of the direction)
     for iv_name, mk in (("b-a", lambda: b - a), ("a-b", lambda: a - b), ("diff", lambda: a.diff(b))):
         case = {"kind": "pair", "loc": loc, "ia": ia, "ib": ib, "global": use_global, "interval": iv_name}
